@@ -60,6 +60,8 @@ func (s sfRoute) SafeFormat(p redact.SafePrinter, _ rune) {
 	}
 }
 
+var errRoutePrime = errors.New("prime")
+
 // judgeC16: the same argument list through all routes.
 func judgeC16(rep *lib.Report, c *lib.Ctx, ln *printerLine, res *realResult, kase json.RawMessage) {
 	if (ln.C.E != "Sprint" && ln.C.E != "Sprintf") || res.Panicked {
@@ -210,6 +212,9 @@ func judgeC16(rep *lib.Report, c *lib.Ctx, ln *printerLine, res *realResult, kas
 	})
 	keep("SafeFormat", func() redact.RedactableString { return redact.Sprint(sfRoute{printf, format, args}) })
 	for _, r := range routes {
+		// a route must not depend on what the goroutine printed before: right before each one a call that leaves a
+		// pooled printer in its least pristine state (a %w accepted by HelperForErrorf) is made on the same goroutine
+		_, _ = redact.HelperForErrorf("%w", errRoutePrime)
 		out, ok := guard(r.name, r.fn)
 		rep.AddEval(1)
 		if !ok {
